@@ -171,6 +171,57 @@ func (r *Report) StoreKeyAgreement(key, module string, minReads int, allowOpaque
 	if reads < minReads {
 		r.Unres(key+"|count", d, fmt.Sprintf("only %d point reads/deletes classified, expected >= %d", reads, minReads))
 	}
+	// sibling accessors of one object agree: GetX / HasX / DeleteX / MustGetX address the key family that SetX writes
+	// (a read through the builder of ANOTHER stored object is written by somebody, so the rule above accepts it)
+	object := func(fk string) (string, string) {
+		name := lastName(fk)
+		for _, p := range []string{"MustGet", "Set", "Get", "Has", "Delete", "Remove"} {
+			if strings.HasPrefix(name, p) && len(name) > len(p) {
+				return strings.TrimSuffix(fk, name), name[len(p):]
+			}
+		}
+		return "", ""
+	}
+	setFam := map[string]string{}
+	for _, s := range sites {
+		if s.Op != "Set" || s.Opaque {
+			continue
+		}
+		fk := FuncKey(s.Fn)
+		if scope, obj := object(fk); obj != "" && strings.HasPrefix(lastName(fk), "Set") {
+			b := strings.Join(s.Builders, "+")
+			if old, ok := setFam[scope+obj]; ok && old != b {
+				setFam[scope+obj] = "*" // a setter writing two families (index + record): no single family to compare with
+			} else if !ok {
+				setFam[scope+obj] = b
+			}
+		}
+	}
+	dd := "x/" + module + ": the accessors GetX/HasX/DeleteX of a stored object address the key family its SetX writes"
+	nsib := 0
+	for _, s := range sites {
+		if s.Op == "Set" || s.Op == "Iter" || s.Op == "IterDelete" || s.Opaque {
+			continue
+		}
+		fk := FuncKey(s.Fn)
+		scope, obj := object(fk)
+		if obj == "" || strings.HasPrefix(lastName(fk), "Set") {
+			continue
+		}
+		want, ok := setFam[scope+obj]
+		if !ok || want == "*" {
+			continue
+		}
+		nsib++
+		b := strings.Join(s.Builders, "+")
+		k := fmt.Sprintf("%s|sibling|%s|%s", key, fk, s.Op)
+		if b == want {
+			r.OK(k, dd, s.Pos, "{"+b+"} as written by Set"+obj)
+		} else {
+			r.Bad(k, dd, s.Pos, fmt.Sprintf("%s addresses {%s} but Set%s writes {%s}: the accessor looks at another object's keys", fk, b, obj, want))
+		}
+	}
+	_ = nsib
 }
 
 func dumpStoreSites(w *World, module string) {
